@@ -32,7 +32,7 @@ def mon_script(script, out_lines, mon_engine):
 
 
 def explore_scripts(ctx, scripts, mon_engine=None, project=None, classify=None, env=None,
-                    nontrivial=None, max_report=4, attribute=None, mon_on_model=True):
+                    nontrivial=None, max_report=4, attribute=None, mon_on_model=True, judge=None):
     """returns dict(evaluations, distinct_nontrivial, samples, traces_validated_against_impl, violations, ...)
        project(lines)->lines selects what the property compares; classify(kind, detail, script)->signature;
        attribute(kind, detail)->bool says whether a rejection belongs to this property."""
@@ -65,6 +65,10 @@ def explore_scripts(ctx, scripts, mon_engine=None, project=None, classify=None, 
             return ("monitor", mi)
         if mon_engine and mi is not None and mi.startswith("ERROR"):
             return ("monitor-error", mi)
+        if judge:
+            why = judge(s, it)          # a property-level judgement of the implementation trace made in Python
+            if why:
+                return ("monitor", "REJECT " + why)
         pm, pi = project(model_t or []), project(it)
         if pm != pi:
             k = next((i for i, (a, b) in enumerate(zip(pm, pi)) if a != b), min(len(pm), len(pi)))
